@@ -175,7 +175,29 @@ def chk_region(c):
     assert set(hs.hmesh.deactivated[0]) == exp, 'refine_region refined %r, expected %r' % (sorted(hs.hmesh.deactivated[0]), sorted(exp))
 
 
-CHECKS = {'space': chk_space, 'kinds': chk_kinds, 'region': chk_region}
+def chk_noop(c):
+    """a refinement call that marks nothing (empty dict, empty containers, a region predicate matching no cell) leaves the space as it is"""
+    hs = hgen.build(c['spec'])
+
+    def snap():
+        return ([sorted(a) for a in hs.actfun], [sorted(a) for a in hs.deactfun], [sorted(a) for a in hs.hmesh.active], [sorted(a) for a in hs.hmesh.deactivated])
+    before = snap()
+    nd = hs.numdofs
+    L = hs.numlevels
+    for marks in ({}, {0: []}, {l: () for l in range(L)}, {L - 1: set(), 0: []}):
+        out = hs.refine(dict(marks))
+        assert snap() == before and hs.numlevels == L, 'refine(%r) changed the space' % (marks,)
+        assert not any(len(v) for v in out.values()), 'refine(%r) reports refined cells %r' % (marks, out)
+    never = (lambda *x: False)
+    for lv in range(L):
+        hs.refine_region(lv, never)
+        after = snap()
+        # (levels without any cell may have been appended; nothing else may change)
+        assert all(a[:L] == b and not any(a[L:]) for a, b in zip(after, before)) and hs.numdofs == nd, \
+            'refine_region(%d, <predicate matching nothing>) changed the space' % lv
+
+
+CHECKS = {'space': chk_space, 'kinds': chk_kinds, 'region': chk_region, 'noop': chk_noop}
 
 
 def generate(tier, rng):
@@ -241,6 +263,21 @@ def generate(tier, rng):
         base = {'dim': 3, 'n': 2, 'p': 1}
         h = hgen.random_history(base, 2, rng, multi_level=False)
         yield 'space', {'spec': dict(h, disparity=['inf', 1][k % 2], truncate=bool(k % 2))}
+    # almost global refinement: few coarse functions survive truncation (represent_fine takes its row-restricted Kronecker branch)
+    for base, leave in (({'dim': 1, 'n': 4, 'p': 2}, (1, 2)), ({'dim': 1, 'n': 4, 'p': 1}, (1, 2, 3)), ({'dim': 1, 'n': 6, 'p': 3}, (1, 2)),
+                        ({'dim': 2, 'n': 3, 'p': 1}, (1, 1)), ({'dim': 2, 'n': 4, 'p': 2}, (1, 2))):
+        hist = []
+        m = base['n']
+        for k, lv in enumerate(leave):
+            m = (m if k == 0 else 2 * m) - lv          # marked cells are active ones: children of the previously marked, minus the last few
+            keep = range(m)
+            hist.append({str(k): [list(t) for t in itertools.product(keep, repeat=base['dim'])]})
+        for tr in (False, True):
+            yield 'space', {'spec': dict(base, history=hist, disparity='inf', truncate=tr)}
+    for spec in ({'dim': 1, 'n': 2, 'p': 2, 'disparity': 'inf', 'history': []}, {'dim': 1, 'n': 4, 'p': 2, 'disparity': 1, 'history': [{'0': [[3]]}, {'1': [[7]]}]},
+                 {'dim': 2, 'n': 3, 'p': 1, 'disparity': 'inf', 'truncate': True, 'history': [{'0': [[0, 0], [1, 1]]}]},
+                 {'dim': 2, 'n': 4, 'p': 2, 'disparity': 2, 'history': [{'0': [[3, 3]]}, {'0': [[0, 0]], '1': [[6, 6]]}]}):
+        yield 'noop', {'spec': spec}
     # marks as list/tuple with finite disparity on several levels (the documented container kinds)
     yield 'kinds', {'spec': {'dim': 2, 'n': 4, 'p': 2, 'disparity': 1, 'history': [{'0': [[3, 3]]}, {'0': [[0, 0]], '1': [[6, 6]]}]}}
     yield 'kinds', {'spec': {'dim': 1, 'n': 4, 'p': 2, 'disparity': 1, 'history': [{'0': [[3]]}, {'0': [[0]], '1': [[7]]}]}}
